@@ -113,6 +113,12 @@ def record(rng, macros, nterms=None):
     n = nterms if nterms is not None else rng.choice([0, 1, 1, 2, 2, 3, 3, 4, 5, 8, 12])
     sep = lambda: rng.choice([' ', ' ', ' ', ' ', '  ', '\t', ' \t ', '\r\n ', '\n'])
     ts = [term(rng, macros) for _ in range(n)]
+    if rng.random() < 0.06:       # a modifier given twice (RFC 7208 6: permerror), the first one empty, non-empty or different in case
+        m = rng.choice(['exp=', 'redirect='])
+        vals = [rng.choice(['', '', 'x.' + rng.choice(NAMES), rng.choice(NAMES)]), rng.choice(['', 'x.' + rng.choice(NAMES), rng.choice(NAMES)])]
+        ts = [t for t in ts if '=' not in t or rng.random() < 0.3]
+        for v in vals:
+            ts.insert(rng.randrange(len(ts) + 1), rng.choice([m, m, m.upper()]) + v)
     r = 'v=spf1'
     for t in ts:
         r += sep() + t
